@@ -276,6 +276,47 @@ theorem concurrent_per_thread_order (lg : Logger) (n : Nat) (prog : Nat → List
     (s.hist j).Pairwise (fun a b => a.tid = b.tid → a.seq < b.seq) :=
   (sord_reach .fixed lg n prog s hr).ord j
 
+/-- (a)+(b) Under concurrency every accepted call still reaches every handler exactly once:
+when all threads have returned, for every call `k` of every thread `i` that passes the
+logger's threshold and handler `j`'s level (and for which the handler writes anything at
+all), handler `j`'s history contains that call — with the message the synchronous logger
+builds for it — and by `concurrent_per_thread_order` it contains it only once; by
+`concurrent_final` the handler's output is exactly the whole record groups of its history. -/
+theorem concurrent_every_call_one_line (lg : Logger) (n : Nat) (prog : Nat → List (Env × Call))
+    (s : SState) (hr : Reach sstep (sinit .fixed lg n prog) s) (hdone : allDone s)
+    (i : Nat) (hi : i < s.n) (k : Nat) (e : Env) (c : Call) (hk : (prog i)[k]? = some (e, c))
+    (hl : ¬ lg.lowest > c.level) (j : Nat) (hlev : ∀ h, lg.handlers[j]? = some h → c.level ≥ h.level)
+    (hne : recsAt lg j (mkMsg lg e c) ≠ []) :
+    ∃ en ∈ s.hist j, en.tid = i ∧ en.seq = k ∧ en.msg = mkMsg lg e c := by
+  obtain ⟨_, cpl⟩ := sboth_reach lg n prog s hr
+  have hd := hdone i hi
+  have hcnt : k < s.cnt i := by
+    have h1 := (cpl.rest i).1
+    rw [hd.1] at h1
+    have h2 := List.drop_eq_nil_iff.mp h1
+    have h3 : k < (prog i).length := by
+      rcases Nat.lt_or_ge k (prog i).length with h | h
+      · exact h
+      · rw [List.getElem?_eq_none h] at hk; cases hk
+    omega
+  rcases cpl.cpl i k e c j hcnt hk hl hne hlev with ⟨en, hen, h1, h2⟩ | ⟨_, hp⟩
+  · refine ⟨en, hen, h1, h2, ?_⟩
+    obtain ⟨e', c', hget, hmsg, _⟩ := cpl.src j en hen
+    rw [h1, h2, hk] at hget
+    injection hget with hget
+    injection hget with a b
+    rw [hmsg, ← a, ← b]
+  · rw [hd.2] at hp; simp [past] at hp
+
+/-- (a) Under concurrency nothing else reaches a handler, and calls below a handler's level
+produce nothing: every entry of a handler's history is a call its thread really made (with
+the message built for that call) whose level is at or above the handler's level. -/
+theorem concurrent_history_are_calls (lg : Logger) (n : Nat) (prog : Nat → List (Env × Call))
+    (s : SState) (hr : Reach sstep (sinit .fixed lg n prog) s) (j : Nat) :
+    ∀ en ∈ s.hist j, ∃ e c, (prog en.tid)[en.seq]? = some (e, c) ∧ en.msg = mkMsg lg e c ∧
+      ∃ h, lg.handlers[j]? = some h ∧ c.level ≥ h.level :=
+  (sboth_reach lg n prog s hr).2.src j
+
 /-! ## (d) the asynchronous logger -/
 
 /-- (d) Allocation accounting at every moment, every schedule, any capacity, any number of
